@@ -98,6 +98,23 @@ fn axpy_body<S: Simd, const L: usize, const N: usize>(simd: S) {
     untouched(&x, &x0);
 }
 
+/// n = 0.  The empty operands are zero-length prefixes of one-element arrays, not `[f64; 0]`: the address of a
+/// `[f64; 0]` is a dangling constant that CBMC treats as an invalid-object pointer, no slice-iterator bound is
+/// then decided during symbolic execution, every loop is unwound to the limit and CBMC exhausts 8 GB (measured
+/// 2026-09-25: symex 200 s, 3.7 M steps, killed at the memory cap) — an artefact of the harness, not of the kernel.
+/// The backing elements must stay untouched (nothing is written through an empty slice).
+fn axpy_empty_body<S: Simd, const L: usize>(simd: S) {
+    lanes_ok::<S, L>();
+    let x: [f64; 1] = any_arr();
+    let y0: [f64; 1] = any_arr();
+    let a: f64 = kani::any();
+    let x0 = x;
+    let mut y = y0;
+    simd.vectorize(Axpy { x: &x[..0], y: &mut y[..0], a });
+    untouched(&x, &x0);
+    untouched(&y, &y0);
+}
+
 fn axpy_out_body<S: Simd, const L: usize, const N: usize>(simd: S) {
     lanes_ok::<S, L>();
     let x: [f64; N] = any_arr();
@@ -289,6 +306,21 @@ fn dot_body<S: Simd, const L: usize, const N: usize>(simd: S, fused: bool) {
     untouched(&y, &y0);
 }
 
+/// n = 0 (see `axpy_empty_body` for why the operands are `&arr[..0]`): the empty dot product is +0.0, which is
+/// also what `ref_reduce::<L, 0>` yields ((0+0)+(0+0) per lane, halving tree, no tail).
+fn dot_empty_body<S: Simd, const L: usize>(simd: S, fused: bool) {
+    lanes_ok::<S, L>();
+    let x: [f64; 1] = any_arr();
+    let y: [f64; 1] = any_arr();
+    let (x0, y0) = (x, y);
+    let r = simd.vectorize(VectorDot { x: &x[..0], y: &y[..0] });
+    let e = ref_reduce::<L, 0>(fused, &[], &[], &[]);
+    assert!(same(r, e), "C17 vector_dot: empty sum in the kernel's association order");
+    assert!(r.to_bits() == 0f64.to_bits(), "C17 vector_dot: the empty dot product is +0.0");
+    untouched(&x, &x0);
+    untouched(&y, &y0);
+}
+
 fn prods2_body<S: Simd, const L: usize, const N: usize>(simd: S, fused: bool) {
     lanes_ok::<S, L>();
     let p1: [f64; N] = any_arr();
@@ -459,10 +491,18 @@ ew!(axpy_s1_n11, axpy_body, Scalar, 1, 11);
 red!(dot_s1_n11, dot_body, Scalar, 1, 11, false);
 
 // ---- degenerate lengths at the 256-bit shape: 0 (nothing), 3 (scalar tail only), 4 (one SIMD-tail vector)
-ew!(axpy_s256_n0, axpy_body, Scalar256b, 4, 0);
+#[kani::proof]
+#[kani::unwind(100)]
+fn axpy_s256_n0() {
+    axpy_empty_body::<Scalar256b, 4>(Scalar256b);
+}
 ew!(axpy_s256_n3, axpy_body, Scalar256b, 4, 3);
 ew!(axpy_s256_n4, axpy_body, Scalar256b, 4, 4);
-red!(dot_s256_n0, dot_body, Scalar256b, 4, 0, true);
+#[kani::proof]
+#[kani::unwind(100)]
+fn dot_s256_n0() {
+    dot_empty_body::<Scalar256b, 4>(Scalar256b, true);
+}
 red!(dot_s256_n3, dot_body, Scalar256b, 4, 3, true);
 red!(prods3_s256_n3, prods3_body, Scalar256b, 4, 3, true);
 
